@@ -236,6 +236,14 @@ def compute(tier):
                     unstable.append(oid)
         vac = run_verus(os.path.join(cdir, "woven_vacuity.rs"))
         vfailed, vtool, _ = map_diags(vmeta, vac["diags"], "woven_vacuity.rs")
+        vlines = set()
+        for dd in vac["diags"]:
+            if dd.get("level") == "error":
+                for sp in dd.get("spans", []):
+                    vlines.add(sp.get("line_start"))
+        for o in vmeta["obligations"]:
+            if o["kind"] == "vacuity" and o["name"] == "lemma" and o["line_start"] in vlines:
+                vfailed[o["id"]] = ["failed as expected"]
         ext_body = set(json.load(open(os.path.join(CONTRACTS, "units.json"))).get("external_body", {}))
         probes = [o for o in vmeta["obligations"] if o["kind"] == "vacuity" and o["fn"] not in ext_body]
         vacuous = [o["id"] for o in probes if o["id"] not in vfailed]
